@@ -460,6 +460,306 @@ def run_binding_part(ctx, part):
     ctx.add_note("A_histories_without_violation", total)
 
 
+# -------------------------------------------------------------------------------------------------
+# part A2 : driver lifetime and reconfiguration
+# -------------------------------------------------------------------------------------------------
+RECONF_FIELDS = ("exe", "nprocs", "envrep", "envmut")
+CLS_OPS = ("set-nprocs", "clear-nprocs", "set-envars", "mut-envars")
+REUSE_BATCH = 40
+
+
+def lifetime_histories(L, jobs, nset, max_new, max_drop, max_reconf, max_use, cls_ops=()):
+    """Every history of at most L ops over
+        ("new", s)            create a driver with settings s (at most two alive at a time)
+        ("drop", s)           delete the driver object (after it was used)
+        ("use", s, job) / ("held", s, job)      as in part A; handles die with their driver
+        ("reconf", s, field)  change the settings of a live driver after it was used: assign executable / nprocs,
+                              replace the envars dict, edit the envars dict in place
+        ("cls", what)         set / clear a class-level default (host flavour)
+    level by level."""
+    frontier = [()]
+    for _ in range(L):
+        nxt = []
+        for h in frontier:
+            alive, used, usedinst = set(), set(), set()
+            nn = nd = nr = nu = 0
+            for op in h:
+                if op[0] == "new":
+                    alive.add(op[1])
+                    nn += 1
+                elif op[0] == "drop":
+                    alive.discard(op[1])
+                    nd += 1
+                    used = {u for u in used if u[0] != op[1]}
+                    usedinst.discard(op[1])
+                elif op[0] in ("use", "held"):
+                    nu += 1
+                    used.add((op[1], op[2]))
+                    usedinst.add(op[1])
+                else:
+                    nr += 1
+            ext = []
+            if nn < max_new and len(alive) < 2:
+                ext += [("new", s) for s in range(nset) if s not in alive]
+            if nd < max_drop:
+                ext += [("drop", s) for s in sorted(alive) if s in usedinst]
+            if nu < max_use:
+                for s in sorted(alive):
+                    for j in jobs:
+                        ext.append(("use", s, j))
+                        if (s, j) in used:
+                            ext.append(("held", s, j))
+            if nr < max_reconf:
+                for s in sorted(alive):
+                    if s in usedinst:
+                        ext += [("reconf", s, f) for f in RECONF_FIELDS]
+                if usedinst:
+                    ext += [("cls", c) for c in cls_ops]
+            for op in ext:
+                nxt.append(h + (op,))
+        yield from nxt
+        frontier = nxt
+
+
+def lifetime_exec(hist, flavour):
+    """Run one history on a fresh class.  A slot holds one driver - or, when a driver was dropped before, a batch
+    of identically configured drivers created until one of them lands on the address of a dropped one (CPython
+    reuses the block at once most of the time).  Returns the observation of the last op and what is expected."""
+    import gc
+
+    cls, shared = make_binding_class(flavour)
+    settings = FLAVOURS[flavour]["settings"]
+    slots = {}  # s -> list of drivers
+    cur = {}  # s -> current settings of the slot {"exe","nprocs","env"}
+    cls_now = {"nprocs": HOST_NPROCS if flavour == "host" else None, "env": dict(CLS_ENV) if flavour != "plain" else {}, "exe": HOST_EXE if flavour == "host" else None}
+    handles = {}  # (s, job) -> (list of bound jobs, settings at the time of the fetch)
+    dropped_ids = set()
+    dropped_settings = []
+    reused = False
+    last = None
+
+    def effective(s, jname):
+        c = cur[s]
+        exe = c["exe"] or cls_now["exe"]
+        nprocs = c["nprocs"] or cls_now["nprocs"] or 1
+        env = dict(cls_now["env"])
+        env.update(c["env"] or {})
+        if jname == "jenv":
+            env.update(JOB_ENV)
+        return exe, nprocs, env
+
+    for step, op in enumerate(hist):
+        last = None
+        if op[0] == "new":
+            s = op[1]
+            exe, nprocs, envars = settings[s]
+            batch = []
+            for _ in range(REUSE_BATCH if dropped_ids else 1):
+                d, _env = make_instance(cls, flavour, s)
+                batch.append(d)
+                if id(d) in dropped_ids:
+                    reused = True
+                    break
+            slots[s] = batch
+            cur[s] = {"exe": exe, "nprocs": nprocs, "env": None if envars is None else dict(envars)}
+        elif op[0] == "drop":
+            s = op[1]
+            dropped_settings.append({j: effective(s, j) for j in FLAVOURS[flavour]["jobs"]})
+            for d in slots[s]:
+                dropped_ids.add(id(d))
+            d = None
+            del slots[s]
+            del cur[s]
+            for k in [k for k in handles if k[0] == s]:
+                del handles[k]
+            gc.collect(0)
+        elif op[0] == "reconf":
+            _, s, field = op
+            c = cur[s]
+            for d in slots[s]:
+                if field == "exe":
+                    d.executable = "/usr/bin/env"
+                elif field == "nprocs":
+                    d.nprocs = 10 + step
+                elif field == "envrep":
+                    d.envars = {"C17_R": f"r{step}"}
+                else:
+                    if getattr(d, "__dict__", {}).get("envars") is None:
+                        d.envars = {}
+                    d.envars["C17_M"] = f"m{step}"
+            if field == "exe":
+                c["exe"] = "/usr/bin/env"
+            elif field == "nprocs":
+                c["nprocs"] = 10 + step
+            elif field == "envrep":
+                c["env"] = {"C17_R": f"r{step}"}
+            else:
+                c["env"] = dict(c["env"] or {})
+                c["env"]["C17_M"] = f"m{step}"
+        elif op[0] == "cls":
+            what = op[1]
+            if what == "set-nprocs":
+                cls.nprocs = 9
+                cls_now["nprocs"] = 9
+            elif what == "clear-nprocs":
+                if "nprocs" in cls.__dict__:
+                    del cls.nprocs
+                cls_now["nprocs"] = None
+            elif what == "set-envars":
+                cls.envars = {"C17_K": f"k{step}"}
+                cls_now["env"] = {"C17_K": f"k{step}"}
+            else:
+                cls.envars["C17_K2"] = f"k{step}"
+                cls_now["env"] = dict(cls_now["env"])
+                cls_now["env"]["C17_K2"] = f"k{step}"
+        else:
+            how, s, jname = op
+            exp_now = effective(s, jname)
+            if how == "use":
+                jobs = [getattr(d, jname) for d in slots[s]]
+                handles.setdefault((s, jname), (jobs, exp_now))
+                accepted = [exp_now]
+            else:
+                jobs, at_fetch = handles[(s, jname)]
+                accepted = [exp_now, at_fetch]
+            got = []
+            for job in jobs:
+                try:
+                    if jname == "many":
+                        prepared = list(job.prepare([Item("a"), Item("b")], tag=f"tag{step}", level=step))
+                    else:
+                        prepared = [job.prepare(Item("a"), f"tag{step}", level=step)]
+                except Exception as e:
+                    got.append(("exc", type(e).__name__))
+                    continue
+                for ji in prepared:
+                    argv = shlex.split(ji.commands[0][0])
+                    got.append((argv[0], argv[-1], tuple(sorted((ji.envars or {}).items()))))
+            last = {"got": got, "accepted": accepted, "how": how, "own_history": None, "dropped": list(dropped_settings), "jname": jname}
+    return last, reused
+
+
+def lifetime_check_last(ctx, hist, flavour, last, report=True):
+    """Expected = the driver's CURRENT settings at prepare() time (a handle fetched before a change may carry
+    the settings as of its fetch instead, field by field)."""
+    if last is None:
+        return True
+    ok = True
+    case = {"part": "A2", "flavour": flavour, "history": [list(x) for x in hist]}
+    jname = last["jname"]
+    had_reconf = any(x[0] in ("reconf", "cls") for x in hist)
+
+    def viol(field, symptom, what):
+        nonlocal ok
+        ok = False
+        if report:
+            ctx.violation(f"binding:{field}:{symptom}", what, case, repro=LIFETIME_REPRO.get(symptom))
+
+    for g in last["got"]:
+        if g[0] == "exc":
+            viol("prepare", f"raised-{g[1]}", f"{jname}.prepare raised {g[1]}")
+            continue
+        for idx, field in ((0, "executable"), (1, "nprocs"), (2, "envars")):
+            goods = []
+            for exe, nprocs, env in last["accepted"]:
+                goods.append(((exe, shutil.which(exe)), (str(nprocs),), (tuple(sorted(env.items())),))[idx])
+            if any(g[idx] in good for good in goods):
+                continue
+            from_dropped = False
+            for dset in last["dropped"]:
+                e = dset.get(jname)
+                if e is not None and g[idx] in ((e[0], shutil.which(e[0])), (str(e[1]),), (tuple(sorted(e[2].items())),))[idx]:
+                    from_dropped = True
+            if from_dropped:
+                sym = "settings-of-a-dropped-driver"
+            elif had_reconf:
+                sym = "stale-settings-after-reconfiguration"
+            else:
+                sym = "wrong-value"
+            want = last["accepted"][0][idx]
+            viol(field, sym, f"JobInput built through a driver whose current {field} is {want!r} carries {g[idx]!r} ({flavour}, {last['how']})")
+    return ok
+
+
+LIFETIME_REPRO = {
+    "settings-of-a-dropped-driver": """\
+from molli.pipeline.driver import DriverBase
+from molli.pipeline.job import Job, JobInput
+class D(DriverBase):
+    default_executable = "sh"
+    @Job(return_files=()).prep
+    def task(self, name):
+        return JobInput(name, commands=[(f"{self.executable} -P {self.nprocs}", None)], return_files=self.return_files, envars=self.envars)
+d = D("sh", nprocs=1); d.task.prepare("x"); del d
+later = [D("bash", nprocs=7) for _ in range(12)]           # one of them lands on the freed address
+print([x.task.prepare("y").commands[0][0] for x in later])   # every one must be '/usr/bin/bash -P 7'
+""",
+    "stale-settings-after-reconfiguration": """\
+from molli.pipeline.driver import DriverBase
+from molli.pipeline.job import Job, JobInput
+class D(DriverBase):
+    default_executable = "sh"
+    @Job(return_files=()).prep
+    def task(self, name):
+        return JobInput(name, commands=[(f"{self.executable} -P {self.nprocs}", None)], return_files=self.return_files, envars=self.envars)
+d = D("sh", nprocs=1, envars={"A": "1"}); d.task.prepare("x")
+d.nprocs = 8; d.envars["B"] = "2"
+print(d.task.prepare("y"))   # expected '-P 8' and envars {'A': '1', 'B': '2'}
+""",
+}
+
+
+def lifetime_parts(ctx, seed):
+    parts = []
+    for flavour in ("plain", "host"):
+        fl = FLAVOURS[flavour]
+        jobs = [j for j in fl["jobs"] if j in (("single", "many") if flavour == "plain" else ("single", "jenv"))]
+        jobs = jobs[seed % len(jobs) :] + jobs[: seed % len(jobs)]
+        nset = 3
+        if ctx.thorough:
+            L, max_new, max_drop, max_reconf, max_use = 6, 3, 2, 2, 3
+        else:
+            L, max_new, max_drop, max_reconf, max_use = 5, 3, 1, 2, 3
+        if flavour == "host" and not ctx.thorough:
+            jobs = jobs[:1] if False else ["single"]
+        cls_ops = CLS_OPS if flavour == "host" else ()
+        for first in range(nset):
+            parts.append(("A2", flavour, first, L, tuple(jobs), nset, max_new, max_drop, max_reconf, max_use, cls_ops))
+        ctx.bound.setdefault("A2", {})[flavour] = {"max_ops": L, "jobs": list(jobs), "settings": nset, "max_new": max_new, "max_drop": max_drop, "max_reconf": max_reconf, "max_uses": max_use, "class_ops": list(cls_ops)}
+    return parts
+
+
+def run_lifetime_part(ctx, part):
+    _, flavour, first, L, jobs, nset, max_new, max_drop, max_reconf, max_use, cls_ops = part
+    bad_prefix: set = set()
+    n = nre = ndrop_new = 0
+    for hist in lifetime_histories(L, jobs, nset, max_new, max_drop, max_reconf, max_use, cls_ops):
+        if hist[0][1] != first:
+            continue  # partition by the first driver created
+        if any(hist[:k] in bad_prefix for k in range(1, len(hist))):
+            continue
+        last, reused = lifetime_exec(hist, flavour)
+        ok = lifetime_check_last(ctx, hist, flavour, last)
+        n += 1
+        ctx.count(evaluations=1, traces=1, transitions=len(hist), states=1)
+        if not ok:
+            bad_prefix.add(hist)
+            continue
+        new_after_drop = any(x[0] == "drop" for x in hist) and any(x[0] == "new" for i, x in enumerate(hist) if any(y[0] == "drop" for y in hist[:i]))
+        if new_after_drop:
+            ndrop_new += 1
+            nre += 1 if reused else 0
+        if last is not None and any(x[0] in ("drop", "reconf", "cls") for x in hist):
+            ctx.nontrivial(("A2", flavour, hist))
+        if last is not None:
+            ctx.outcome(("A2", hashlib.sha1(repr((last["got"][:1], hist[-1])).encode()).hexdigest()[:12]))
+        if n == 500 and first == 0:
+            ctx.sample({"part": "A2", "flavour": flavour, "history": [list(x) for x in hist], "observed_last": None if last is None else repr(last["got"][:1])[:200]})
+    ctx.add_note("A2_histories_executed", n)
+    ctx.add_note("A2_histories_with_a_driver_created_after_a_drop", ndrop_new)
+    ctx.add_note("A2_of_those_with_the_address_of_a_dropped_driver_reused", nre)
+
+
 # =================================================================================================
 # part B : execution
 # =================================================================================================
@@ -476,6 +776,34 @@ RET_CHOICES = [(), ("a.dat",), ("b.bin",), ("a.dat", "b.bin"), None]
 TEXT_IN = "first line\nsecond line\n"
 BIN_IN = bytes([0, 1, 2, 0xFE, 0xFF, 10, 13, 0x80]) + b"tail"
 VAR = "C17_VAR"
+# environment alphabet: probed variable -> (class, value in JobInput.envars, value in the runner's own environment)
+# for the two modes.  mode "job": one variable, set only by the job; mode "multi": many variables at once -
+# overrides of inherited values, EMPTY values (new and over an inherited value), "0", blanks / '=' / quotes, unicode.
+ENV_PROBES = {
+    "C17_VAR": "plain",
+    "C17_NEWEMPTY": "empty-new",
+    "C17_BLANKED": "empty-over-inherited",
+    "C17_ZERO": "zero",
+    "C17_SPACES": "special-characters",
+    "C17_EQ": "special-characters",
+    "C17_QUOTES": "special-characters",
+    "C17_UNI": "unicode",
+    "C17_INHERIT_ONLY": "not-set-by-job",
+}
+ENV_JOB = {
+    "job": {"C17_VAR": "fromjob"},
+    "multi": {
+        "C17_VAR": "fromjob",
+        "C17_NEWEMPTY": "",
+        "C17_BLANKED": "",
+        "C17_ZERO": "0",
+        "C17_SPACES": " a b  c ",
+        "C17_EQ": "k=v=w",
+        "C17_QUOTES": "it's \"q\" `x` $HOME",
+        "C17_UNI": "\u017c\u00f3\u0142\u0107-\u65e5\u672c",
+    },
+}
+ENV_PROC = {"job": {}, "multi": {"C17_VAR": "fromproc", "C17_BLANKED": "inherited", "C17_ZERO": "1"}}
 
 
 def wbytes(kind, i):
@@ -501,7 +829,8 @@ def body(kind, i, mdir, infile):
     if kind == "R":
         return pre + f"cp {infile} {m}/read{i}; od -An -v -tx1 {infile} | tr -d ' \\n'"
     if kind == "E":
-        return pre + f'printf %s "${VAR}" > {m}/env{i}; printf %s "${VAR}"'
+        probes = "".join(f'printf %s "${{{v}+set}}:${v}" > {m}/env{i}_{v}; ' for v in ENV_PROBES)
+        return pre + probes + f'printf %s "${VAR}"'
     raise HarnessError(f"unknown command kind {kind}")
 
 
@@ -546,13 +875,13 @@ def exec_driver(env_mode):
     """One driver instance per environment mode, each on its own fresh class."""
     if env_mode not in _EXEC_DRIVERS:
         cls = make_exec_class()
-        envars = None if env_mode is None else {VAR: "fromjob"}
+        envars = None if env_mode is None else dict(ENV_JOB[env_mode])
         _EXEC_DRIVERS[env_mode] = cls("sh", nprocs=1, envars=envars)
     return _EXEC_DRIVERS[env_mode]
 
 
 def proc_env(env_mode):
-    return {VAR: "fromproc"} if env_mode == "override" else {}
+    return dict(ENV_PROC.get(env_mode, {}))
 
 
 def reference(spec):
@@ -590,7 +919,9 @@ def reference(spec):
             reads[i] = content_in
         elif kind == "E":
             so = "fromjob"
-            envs[i] = "fromjob"
+            # "set:<value>" for a variable the job sets (whatever the runner's environment says), ":" for a
+            # variable that neither sets; a variable only the runner's environment has is not constrained
+            envs[i] = {v: ("set:" + ENV_JOB[spec["env"]][v] if v in ENV_JOB[spec["env"]] else None if v in ENV_PROC[spec["env"]] else ":") for v in ENV_PROBES}
         if named:
             stdouts[f"c{i}"] = so
             stderrs[f"c{i}"] = se
@@ -630,8 +961,9 @@ def execute(ctx, spec, via, wd: Path):
     cwd0 = os.getcwd()
     if via == "inproc":
         old_argv, old_stdin = sys.argv, sys.stdin
-        saved = {VAR: os.environ.get(VAR)}
-        os.environ.pop(VAR, None)
+        saved = {v: os.environ.get(v) for v in ENV_PROBES}
+        for v in ENV_PROBES:
+            os.environ.pop(v, None)
         os.environ.update(penv)
         os.chdir(home)
         sys.argv = ["_molli_run", str(inp), "-o", str(odir), "-s", str(sdir)]
@@ -662,7 +994,8 @@ def execute(ctx, spec, via, wd: Path):
         obs["stderr_tail"] = err.getvalue()[-200:]
     else:
         env = os.environ.copy()
-        env.pop(VAR, None)
+        for v in ENV_PROBES:
+            env.pop(v, None)
         env.update(penv)
         repo = os.environ.get("VERIF_REPO", "/repo")
         env["PYTHONPATH"] = repo + (os.pathsep + env["PYTHONPATH"] if env.get("PYTHONPATH") else "")
@@ -707,7 +1040,8 @@ def execute(ctx, spec, via, wd: Path):
         elif p.name.startswith("read"):
             obs["reads"][int(p.name[4:])] = p.read_bytes()
         elif p.name.startswith("env"):
-            obs["envs"][int(p.name[3:])] = p.read_text()
+            idx, var = p.name[3:].split("_", 1)
+            obs["envs"].setdefault(int(idx), {})[var] = p.read_bytes().decode("utf8", "replace")
     obs["residue"] = sorted(p.name for p in sdir.iterdir())
     obs["home"] = os.path.realpath(home)
     obs["sdir"] = os.path.realpath(sdir)
@@ -767,9 +1101,25 @@ def check_exec(ctx, spec, obs, case):
     for i, b in ref["reads"].items():
         if i in obs["order"] and obs["reads"].get(i) != b:
             viol("input-file", f"bytes-differ[{spec['infile']}]", f"materialised {spec['infile']} input file differs from JobInput.files")
-    for i, v in ref["envs"].items():
-        if i in obs["order"] and obs["envs"].get(i) != v:
-            viol("environment", f"job-envar-not-effective[{spec['env']}]", f"command saw ${VAR}={obs['envs'].get(i)!r}, JobInput.envars says {v!r} (mode {spec['env']})")
+    for i, exp in ref["envs"].items():
+        if i not in obs["order"]:
+            continue
+        seen = obs["envs"].get(i, {})
+        for var, want in exp.items():
+            got = seen.get(var)
+            if want is None or got == want:
+                continue
+            cls = ENV_PROBES[var]
+            inherited = ENV_PROC[spec["env"]].get(var)
+            if want == ":":
+                sym = "variable-set-although-nobody-sets-it"
+            elif got == ":":
+                sym = "unset-although-the-job-sets-it"
+            elif inherited is not None and got == "set:" + inherited:
+                sym = "value-of-the-runner-environment-wins"
+            else:
+                sym = "wrong-value"
+            viol("environment", f"{sym}[{cls}]", f"command saw {var} as {got!r} (\"set:<value>\" / \":\" = unset); JobInput.envars says {want!r}, runner environment has {inherited!r} (mode {spec['env']})")
     # -- the JobOutput
     out = obs["out"]
     if out is None and crashed_on_unstartable:
@@ -838,7 +1188,7 @@ def naming_masks(n, full):
 
 def specs_for(cmds, masks, rets):
     infiles = ["text", "bin"] if "R" in cmds else [None]
-    envs = ["job", "override"] if "E" in cmds else [None]
+    envs = ["job", "multi"] if "E" in cmds else [None]
     for named in masks:
         for ret in rets:
             for inf in infiles:
@@ -952,7 +1302,7 @@ def conformance_specs(ctx, specs, seed):
     for inf in ("text", "bin"):
         out.append({"cmds": ["R"], "named": [True], "ret": [], "infile": inf, "env": None})
         out.append({"cmds": ["R", "Wa"], "named": [False, True], "ret": ["a.dat"], "infile": inf, "env": None})
-    for env in ("job", "override"):
+    for env in ("job", "multi"):
         out.append({"cmds": ["E"], "named": [True], "ret": [], "infile": None, "env": env})
     for c, n, r in [
         (["K9", "P"], [True, True], []),
@@ -974,6 +1324,8 @@ def spec_key(spec, via):
 def run_part(sub, part):
     if part[0] == "A":
         return run_binding_part(sub, part)
+    if part[0] == "A2":
+        return run_lifetime_part(sub, part)
     return run_cases(sub, part)
 
 
@@ -1054,14 +1406,18 @@ def run(ctx):
     ]
     parts = execution_parts(ctx, seed)
     nscript = sum(1 for p in parts if p[0] == "script")
-    parts = parts[:nscript] + binding_parts(ctx, seed) + parts[nscript:]
+    parts = parts[:nscript] + binding_parts(ctx, seed) + lifetime_parts(ctx, seed) + parts[nscript:]
     ctx.pmap(run_part, parts, nproc=16 if ctx.thorough else 8)
 
 
 def replay(ctx, case):
-    if case.get("part") == "A":
+    if case.get("part") in ("A", "A2"):
         hist = tuple(tuple(x) for x in case["history"])
         flavour = case.get("flavour", "plain")
+        if case.get("part") == "A2":
+            last, _ = lifetime_exec(hist, flavour)
+            lifetime_check_last(ctx, hist, flavour, last)
+            return
         obs, state = binding_exec(hist, flavour)
         binding_check_last(ctx, hist, obs, state, flavour)
         return
